@@ -37,6 +37,9 @@ def slices(tier):
     # FP-labelled ground truth in the bucket's threshold lookup (ignored) and any-policy
     sl["dist_allow_any"] = dict(base, Cfgs="{%s}" % cfg_tla("ALLOW_ANY", 2, False), Levels="{1,3}", ELabels='{"car"}',
                                 GLabels='{"car","pedestrian"}', MaxFrames="2")
+    # a threshold of exactly 0 is a legal threshold (IoU: any overlap is a TP; distance: nothing is)
+    sl["iou_zero_threshold"] = dict(base, Cfgs="{%s, %s}" % (cfg_tla("DEFAULT", 0, True), cfg_tla("DEFAULT", 0, False)), Levels="{0,2}", ELabels='{"car"}',
+                                    GLabels='{"car"}', MaxFrames="2", GtIds="{1,2}" if big else "{1}", CheckRenaming="FALSE")
     return sl
 
 
@@ -81,7 +84,7 @@ def replay_hist(arg):
         frames = []
         for f in hist:
             frames.append([DynamicObjectWithPerceptionResult(e, g, POLICIES[cfg["policy"]]) for e, g in build_frame(f, maximize, rng)])
-        thr = 0.2 if maximize else float(cfg["thr"])
+        thr = 0.0 if cfg["thr"] == 0 else (0.2 if maximize else float(cfg["thr"]))
         G = out["g"]
         rep = {"hist": [sorted(f, key=lambda r: r["e"]) for f in hist], "cfg": cfg, "mode": mode, "spec": out}
         try:
@@ -289,7 +292,8 @@ def run(ctx: Ctx):
             # a bag whose domain is 1..n is printed by TLC as a sequence
             by = out["by"]
             out["by"] = dict(by) if isinstance(by, dict) else {i + 1: v for i, v in enumerate(by)}
-            modes = modes_all if not ctx.quick else [modes_all[i % 2]]
+            modes_st = ["iou2d", "iou3d"] if dict(st["cfg"])["maximize"] else ["center", "plane"]
+            modes = modes_st if not ctx.quick else [modes_st[i % 2]]
             items.append((hist, dict(st["cfg"]), out, modes, ctx.seed + i))
         outs = pmap(replay_hist, items)
         for (hist, cfg, out, _m, _s), (n, mism) in zip(items, outs):
